@@ -12,10 +12,12 @@ def tf_seconds(tf):
 
 
 def label_of(ts, s):
+    """bucket end on the timestamp's own wall-clock axis (naive, or aware: its own offset)"""
     ts = ts.replace(microsecond=0)
-    d = ts - EPOCH
+    epoch = EPOCH if ts.tzinfo is None else EPOCH.replace(tzinfo=ts.tzinfo)
+    d = ts - epoch
     secs = d.days * 86400 + d.seconds
-    return EPOCH + timedelta(seconds=math.ceil(secs / s) * s) if secs % s else ts
+    return epoch + timedelta(seconds=math.ceil(secs / s) * s) if secs % s else ts
 
 
 def resample(rows, tf, fill=False):
